@@ -115,7 +115,9 @@ def run(module, cfg=None, *, env=None, workers=1, timeout=900, simulate=None, de
             r.generated = int(m.group(1)); r.distinct = r.distinct or r.generated
     r.ok = not r.violated and not r.errors and p.returncode == 0
     if check_ok and (r.errors or (p.returncode != 0 and not r.violated)):
-        tail = '\n'.join(p.stdout.splitlines()[-25:])
+        lines = p.stdout.splitlines()
+        first = next((k for k, l in enumerate(lines) if l.startswith('Error:')), max(0, len(lines) - 25))
+        tail = '\n'.join(lines[first:first + 14] + ['...'] + lines[-6:])
         raise TLCError(f'TLC failed ({module}, {cfg}) rc={p.returncode}:\n{tail}')
     return r
 
